@@ -7,6 +7,7 @@ package commands
 //@ prelude c18
 
 //@ func Validate()
+//@   verify [C12]
 //@   requires exitCode < 0 && !opaRejected && !opaEvaluated && !ldRejected
 //@   ensures [C18:exits] exitCode >= 0
 //@   ensures [C18:failure-is-silent] exitCode != 0 ==> stdout == old(stdout)
